@@ -703,21 +703,31 @@ macro_rules! expand_with_label_harness {
         #[kani::unwind(82)]
         fn $name() {
             let secret = any_bytes::<4>();
-            // (prefix of a real array: a zero-length array would be a dangling pointer)
-            let l: [u8; 4] = kani::any();
+            let l: [u8; $ll] = kani::any();
             let c: [u8; 4] = kani::any();
-            for_each_prefix(&c, |context| expand_with_label_case(&secret, &l[..$ll], context));
+            for_each_prefix(&c, |context| expand_with_label_case(&secret, &l, context));
         }
     )* };
 }
 
 expand_with_label_harness!(
-    c13_kdf_expand_with_label_l0_bounded_4: 0,
     c13_kdf_expand_with_label_l1_bounded_4: 1,
     c13_kdf_expand_with_label_l2_bounded_4: 2,
     c13_kdf_expand_with_label_l3_bounded_4: 3,
     c13_kdf_expand_with_label_l4_bounded_4: 4,
 );
+
+// empty label: taken as the empty prefix of a real array (a `[u8; 0]` is a dangling pointer,
+// on which CBMC ran out of memory)
+#[kani::proof]
+#[kani::stub(zeroize::optimization_barrier, noop_barrier)]
+#[kani::unwind(82)]
+fn c13_kdf_expand_with_label_l0_bounded_4() {
+    let secret = any_bytes::<4>();
+    let l: [u8; 1] = kani::any();
+    let c: [u8; 4] = kani::any();
+    for_each_prefix(&c, |context| expand_with_label_case(&secret, &l[..0], context));
+}
 
 // the two-byte form of the `<V>` length header: "MLS 1.0 " + 55 bytes = 63 (one byte),
 // + 56 bytes = 64 (two bytes 0x40 0x40)
@@ -880,10 +890,10 @@ macro_rules! group_context_encoding_harness {
         #[kani::proof]
         #[kani::unwind(82)]
         fn $name() {
-            let g: [u8; 2] = kani::any();
+            let g: [u8; $gl] = kani::any();
             let t: [u8; 1] = kani::any();
             let h: [u8; 1] = kani::any();
-            for_each_prefix(&t, |th| for_each_prefix(&h, |cth| group_context_case(&g[..$gl], th, cth)));
+            for_each_prefix(&t, |th| for_each_prefix(&h, |cth| group_context_case(&g, th, cth)));
         }
     )* };
 }
@@ -1142,20 +1152,28 @@ macro_rules! export_secret_harness {
         #[kani::stub(zeroize::optimization_barrier, noop_barrier)]
         #[kani::unwind(82)]
         fn $name() {
-            let label: [u8; 4] = kani::any();
+            let label: [u8; $ll] = kani::any();
             let c: [u8; 2] = kani::any();
-            for_each_prefix(&c, |context| export_secret_case(&label[..$ll], context));
+            for_each_prefix(&c, |context| export_secret_case(&label, context));
         }
     )* };
 }
 
 export_secret_harness!(
-    c13_export_secret_l0_bounded_2: 0,
     c13_export_secret_l1_bounded_2: 1,
     c13_export_secret_l2_bounded_2: 2,
     c13_export_secret_l3_bounded_2: 3,
     c13_export_secret_l4_bounded_2: 4,
 );
+
+#[kani::proof]
+#[kani::stub(zeroize::optimization_barrier, noop_barrier)]
+#[kani::unwind(82)]
+fn c13_export_secret_l0_bounded_2() {
+    let label: [u8; 1] = kani::any();
+    let c: [u8; 2] = kani::any();
+    for_each_prefix(&c, |context| export_secret_case(&label[..0], context));
+}
 
 // a deleted exporter secret yields ExporterDeleted and no KDF call
 #[kani::proof]
